@@ -1,6 +1,6 @@
 SPECIFICATION Spec
 CONSTANTS
-  Deviations <- AllDevs
+  Deviations <- RealDevs
   MaxNodes = 2
   Worlds <- R3World
   Rich = FALSE
